@@ -6,6 +6,3 @@ func (c *checker) heapReplay(string) int                  { return 2 }
 func (c *checker) raceReplay(string, *ReplayFile) int     { return 2 }
 func heapWorkerMain([]string) int                         { return 2 }
 func raceWorkerMain([]string) int                         { return 2 }
-func (c *checker) nodeCheck() (map[string]any, int, int) { c.broken = true; return nil, 0, 0 }
-func (c *checker) nodeReplay(string) int                  { return 2 }
-func nodeWorkerMain([]string) int                         { return 2 }
